@@ -5,8 +5,8 @@
 //       harness-supplied Neighbors (any digraph), a table-driven distance callback and Landmarks;
 //   (b) the bodies of IsomapImplementation::embed() / LandmarkIsomapImplementation::embed() as the
 //       library text has them, constructed the way tapkee::embed() constructs them; inside those two headers (and only
-//       there) the identifiers `compute_shortest_distances_matrix(` and `eigendecomposition_via(`
-//       are wrapped by function-like macros that record arguments/results and forward to the real
+//       there) the identifiers `find_neighbors_with(`, `compute_shortest_distances_matrix(` and
+//       `eigendecomposition_via(` are wrapped by function-like macros that record arguments/results and forward to the real
 //       functions (the real definitions are included BEFORE the macros; #pragma once keeps them);
 //   (c) Eigen::SelfAdjointEigenSolver as reference oracle for the tolerance stream (command EIG).
 // Protocol: one case per stdin line; "C <k>" is printed (flushed) before case k so that an abort is
@@ -15,7 +15,8 @@
 //        R full N N .. ; R land nl N .. (if nl > 0) ; R trace / R ltrace (pairs u v of callback calls,
 //        only when trace=1, which forces one thread); entries equal to DBL_MAX print as "inf"
 //   ISO <threads> iso|liso brute|vptree|covertree dense|randomized <k> <d> <ratio> <seed> <N> <N*N doubles>
-//        R nbrs N K ints ; R lm nl 1 ints (liso) ; R geo r c .. ; R B<i> n m .. (each matrix handed to
+//        R nbrs0 N K ints (what find_neighbors_with returned) ; R nbrs N K ints (what the geodesic routine was
+//        given) ; R lm nl 1 ints (liso) ; R geo r c .. ; R B<i> n m .. (each matrix handed to
 //        eigendecomposition_via, in call order) ; R emb N d ..
 //   EIG <n> <n*n doubles>     R vals n 1 (ascending) ; R vecs n n
 //   BIG <threads> <N> <e> <nl> lm..   path graph, k = 2, distance |a-b| * 2^e, on a thread with an 8 MiB stack:
@@ -69,9 +70,14 @@ struct capture_t
     bool have_lm = false;
     DenseMatrix geo;
     std::vector<DenseMatrix> handed;
+    // what find_neighbors_with returned (wave 4): the neighbourhood graph as embed() received it, recorded
+    // independently of whether embed() then calls compute_shortest_distances_matrix at all
+    Neighbors nbrs0;
+    bool have_nbrs0 = false;
     void reset()
     {
-        have_geo = have_lm = false;
+        have_geo = have_lm = have_nbrs0 = false;
+        nbrs0.clear();
         nbrs.clear();
         lm.clear();
         handed.clear();
@@ -105,6 +111,15 @@ template <class It, class CB> DenseMatrix cap_geo(It, It, Landmarks& lm, Neighbo
     }
     return r;
 }
+inline Neighbors cap_nbrs(Neighbors nb)
+{
+    if (cap().on && !cap().have_nbrs0)
+    {
+        cap().nbrs0 = nb;
+        cap().have_nbrs0 = true;
+    }
+    return nb;
+}
 template <class M> void cap_handed(const M& m)
 {
     if (cap().on) cap().handed.push_back(DenseMatrix(m));
@@ -116,8 +131,10 @@ template <class M> void cap_handed(const M& m)
 #define compute_shortest_distances_matrix(...)                                                                         \
     ::vh::cap_geo(__VA_ARGS__, compute_shortest_distances_matrix(__VA_ARGS__))
 #define eigendecomposition_via(S, M, D) (::vh::cap_handed(M), eigendecomposition_via(S, M, D))
+#define find_neighbors_with(...) ::vh::cap_nbrs(find_neighbors_with(__VA_ARGS__))
 #include <tapkee/methods/isomap.hpp>
 #include <tapkee/methods/landmark_isomap.hpp>
+#undef find_neighbors_with
 #undef compute_shortest_distances_matrix
 #undef eigendecomposition_via
 
@@ -377,6 +394,33 @@ static void run_big(int k, std::istringstream& is)
 }
 
 #ifdef C04_WITH_ISO
+static void print_neighbors(const std::string& tag, const Neighbors& nbrs)
+{
+    std::ostringstream os;
+    size_t K = nbrs.empty() ? 0 : nbrs[0].size();
+    bool ragged = false;
+    for (auto& r : nbrs)
+        if (r.size() != K) ragged = true;
+    if (ragged)
+    {
+        os << "R " << tag << "-ragged " << nbrs.size() << " 0";
+        for (auto& r : nbrs)
+        {
+            os << " |" << r.size();
+            for (auto v : r)
+                os << " " << v;
+        }
+    }
+    else
+    {
+        os << "R " << tag << " " << nbrs.size() << " " << K;
+        for (auto& r : nbrs)
+            for (auto v : r)
+                os << " " << v;
+    }
+    std::cout << os.str() << std::endl;
+}
+
 static void run_iso(int k, std::istringstream& is)
 {
     int threads, kk, d, N;
@@ -435,31 +479,10 @@ static void run_iso(int k, std::istringstream& is)
         throw;
     }
     cap().on = false;
+    if (cap().have_nbrs0) print_neighbors("nbrs0", cap().nbrs0);
     if (cap().have_geo)
     {
-        std::ostringstream os;
-        size_t K = cap().nbrs.empty() ? 0 : cap().nbrs[0].size();
-        bool ragged = false;
-        for (auto& r : cap().nbrs)
-            if (r.size() != K) ragged = true;
-        if (ragged)
-        {
-            os << "R nbrs-ragged " << cap().nbrs.size() << " 0";
-            for (auto& r : cap().nbrs)
-            {
-                os << " |" << r.size();
-                for (auto v : r)
-                    os << " " << v;
-            }
-        }
-        else
-        {
-            os << "R nbrs " << cap().nbrs.size() << " " << K;
-            for (auto& r : cap().nbrs)
-                for (auto v : r)
-                    os << " " << v;
-        }
-        std::cout << os.str() << std::endl;
+        print_neighbors("nbrs", cap().nbrs);
         if (cap().have_lm)
         {
             std::ostringstream ol;
